@@ -5,6 +5,7 @@ mod misc;
 mod mocks;
 mod models;
 mod prog;
+mod timg;
 
 use std::io::{BufRead, Write};
 use std::sync::Mutex;
@@ -48,6 +49,8 @@ fn main() {
             "anglesum" => misc::anglesum(&mut t),
             "color" => misc::color(&mut t),
             "colorsum" => misc::colorsum(&mut t),
+            "timg" => timg::timg(&mut t),
+            "timgp" => timg::timgp(&mut t),
             "spi" => l2::spi(&mut t),
             "par" => l2::par(&mut t),
             "bus" => l2::bus(&mut t),
